@@ -664,13 +664,20 @@ Deliver(fr, kind, st, rv) ==
 HasSaved(name) == "fn" \in DOMAIN saved[name]
 
 \* Enter (or resume) user function g with argument function argf.
+\* A local whose type holds a pointer (a slice) is NOT kept across a suspension: the generated code never saves it and
+\* starts it again as the zero value (the empty slice) on resumption, and the checker drops every fact about such a
+\* local at a suspension point for that reason (lang/check updateFactsForSuspension, HasPointers).  This is part of
+\* what a program means, in both readings of a suspension.
+SliceLocals(g) == { g.locals[i].n : i \in { j \in 1..Len(g.locals) : g.locals[j].kind = "slice" } }
+Resumed(g, sf) == [x \in DOMAIN sf.loc |-> IF x \in SliceLocals(g) THEN EmptySlice ELSE sf.loc[x]]
+
 Enter(g, argf, fr) ==
     IF \E i \in 1..Len(stack) : stack[i].fn = g.name THEN Fault(V("recursion"))
     ELSE IF ParamViol(g, argf) THEN Fault(V("argument"))
     ELSE LET nf == IF HasSaved(g.name)
                    THEN LET sf == saved[g.name] IN
-                        [sf EXCEPT !.args = argf, !.fi = Len(stack) + 1,
-                                   !.pz = IF Mode = "cgen" THEN DOMAIN sf.loc \ { g.resum[i] : i \in 1..Len(g.resum) } ELSE {}]
+                        [sf EXCEPT !.args = argf, !.fi = Len(stack) + 1, !.loc = Resumed(g, sf),
+                                   !.pz = IF Mode = "cgen" THEN (DOMAIN sf.loc \ { g.resum[i] : i \in 1..Len(g.resum) }) \ SliceLocals(g) ELSE {}]
                    ELSE NewFrame(g, argf, Len(stack) + 1)
          IN /\ stack' = Append(SetTop(fr), nf)
             /\ saved' = [saved EXCEPT ![g.name] = NoSaved]
@@ -1156,8 +1163,8 @@ Call(g, ci) ==
              ELSE /\ mode' = "run"
                   /\ stack' = << IF HasSaved(g.name)
                                  THEN LET sf == saved[g.name] IN
-                                      [sf EXCEPT !.args = argf, !.fi = 1,
-                                                 !.pz = IF Mode = "cgen" THEN DOMAIN sf.loc \ { g.resum[i] : i \in 1..Len(g.resum) } ELSE {}]
+                                      [sf EXCEPT !.args = argf, !.fi = 1, !.loc = Resumed(g, sf),
+                                                 !.pz = IF Mode = "cgen" THEN (DOMAIN sf.loc \ { g.resum[i] : i \in 1..Len(g.resum) }) \ SliceLocals(g) ELSE {}]
                                  ELSE NewFrame(g, argf, 1) >>
                   /\ saved' = [saved EXCEPT ![g.name] = NoSaved]
                   /\ UNCHANGED <<pi, th, src, dst, status, retv, disabled, active, fault, hist, fuel>>
